@@ -32,7 +32,8 @@ def legs(tier):
     out = []
     for v in ("3.12", "3.9"):
         out.append(Leg(v, n, args={"leg": "seq"}, name=v + "-seq"))
-        out.append(Leg(v, 2 if tier == "quick" else 4, args={"leg": "conc"}, name=v + "-conc"))
+        # thorough: one concurrent scenario per shard (the four-thread and the bound-2 scenarios each take a long time)
+        out.append(Leg(v, 2 if tier == "quick" else len(CONC_SCENARIOS), args={"leg": "conc"}, name=v + "-conc"))
     if tier != "quick":
         for v in ("3.11", "3.10"):
             out.append(Leg(v, 4, args={"leg": "seq"}, name=v + "-seq"))
